@@ -30,22 +30,16 @@ func init() {
 		// vChoose(n): a selector in [0,n), enumerated by forking
 		"vChoose": func(fr *frame, args []value) value {
 			n := args[0].(int)
-			s := fr.i.freshVar(types.Int, "c")
+			c := fr.i.forkN(n)
 			ps := fr.i.ps()
-			idx := len(ps.events)
-			ps.events = append(ps.events, Event{Kind: "int", Term: s.T})
-			fr.i.assume(vAnd(symBinop("bvsle", int(0), s), symBinop("bvslt", s, int(n))))
-			c := fr.i.concretize(s)
-			ps.events[idx] = Event{Kind: "int", Val: uint64(c.(int))}
+			ps.events = append(ps.events, Event{Kind: "int", Val: uint64(c)})
 			return c
 		},
 		// vString(max): any string of length 0..max, any bytes
 		"vString": func(fr *frame, args []value) value {
 			max := args[0].(int)
 			ps := fr.i.ps()
-			l := fr.i.freshVar(types.Int, "l")
-			fr.i.assume(vAnd(symBinop("bvsle", int(0), l), symBinop("bvsle", l, int(max))))
-			n := fr.i.concretize(l).(int)
+			n := fr.i.forkN(max + 1)
 			cells := make([]value, n)
 			for k := range cells {
 				cells[k] = fr.i.freshVar(types.Uint8, "s")
@@ -110,6 +104,25 @@ func init() {
 			fr.i.ps().permuteMaps = args[0].(bool)
 			return nil
 		},
+		"vStubTimeFormat": func(fr *frame, args []value) value {
+			fr.i.ps().stubTimeFormat = args[0].(bool)
+			return nil
+		},
+		// vFile(id): a recording sink *os.File; vFileData(id): what was written
+		"vFile": func(fr *frame, args []value) value {
+			t := fr.i.prog.ImportedPackage("os").Type("File").Type()
+			v := zero(t)
+			fr.i.files[&v] = args[0].(int)
+			return &v
+		},
+		"vFileData": func(fr *frame, args []value) value {
+			var cells []value
+			for _, w := range fr.i.fileData[args[0].(int)] {
+				cells = append(cells, w...)
+			}
+			return mkString(cells)
+		},
+		"vFileWrites": func(fr *frame, args []value) value { return len(fr.i.fileData[args[0].(int)]) },
 		"vKnown": func(fr *frame, args []value) value {
 			fr.i.ps().known = args[0].(string)
 			return nil
